@@ -209,11 +209,11 @@ handshake bytes, and leaves the receive ciphers in the peer's send state (so `st
 to everything that follows). Hypothesis `hno`: the 16-byte terminator does not occur in the
 peer's garbage at an earlier offset (probability ≤ 4095·2⁻¹²⁸). -/
 theorem handshake_completes (P : Prims) (hmac : ∀ k m, (P.mac k m).length = 16) (k : Keys) (ini : Bool)
-    (myGarbage : List UInt8) (myDecoys : List Nat) (written mb : List UInt8) (send' : Dir)
+    (myGarbage : List UInt8) (myDecoys : List (List UInt8)) (written mb : List UInt8) (send' : Dir)
     (hmine : sendDecoys P (mkSession k ini).send myGarbage myDecoys [] = .ok (mb, send'))
     (G : List UInt8) (hG : G.length ≤ MAX_GARBAGE_LEN)
     (hT : (mkSession k (!ini)).sendTerm.length = 16)
-    (peerDecoys : List Nat) (pb : List UInt8) (d' : Dir)
+    (peerDecoys : List (List UInt8)) (pb : List UInt8) (d' : Dir)
     (hpeer : sendDecoys P (mkSession k (!ini)).send G peerDecoys [] = .ok (pb, d')) (rest : List UInt8)
     (hno : ∀ i, i < G.length →
       ((G ++ ((mkSession k (!ini)).sendTerm ++ (pb ++ rest))).drop i).take 16 ≠ (mkSession k (!ini)).sendTerm) :
@@ -239,7 +239,7 @@ proved here), the decoys are within the size limit (`hdA`, `hdB`), terminators a
 (`hv1`, `hnet`), and a terminator does not occur inside the garbage preceding it (`hnoA`, `hnoB`). -/
 theorem session_established (P : Prims) (hmac : ∀ k m, (P.mac k m).length = 16) (K : Kdf) (magic : Nat)
     (rndA rndB : List UInt8) (gA gB : Nat) (hgA : gA ≤ MAX_GARBAGE_LEN) (hgB : gB ≤ MAX_GARBAGE_LEN)
-    (decoysA decoysB : List Nat)
+    (decoysA decoysB : List (List UInt8))
     (a b : Nat) (ellA ellB rA rB : List UInt8)
     (hcA : Ellswift.create rndA = some (a, ellA, rA)) (hcB : Ellswift.create rndB = some (b, ellB, rB))
     (hlA : ellA.length = 64) (hlB : ellB.length = 64)
@@ -292,7 +292,7 @@ theorem session_established (P : Prims) (hmac : ∀ k m, (P.mac k m).length = 16
 network (magic ‖ "version" ‖ 5 zero bytes) makes the responder report ErrUseV1Protocol without
 generating a key or writing a byte (so the caller can fall back to v1 on the same connection). -/
 theorem v1_detected (P : Prims) (K : Kdf) (magic : Nat) (rnd : List UInt8) (gLen : Nat)
-    (decoys : List Nat) (tail : List UInt8) :
+    (decoys : List (List UInt8)) (tail : List UInt8) :
     (responder P K magic rnd gLen decoys (v1Prefix magic ++ tail)).status = .useV1 ∧
     (responder P K magic rnd gLen decoys (v1Prefix magic ++ tail)).written = [] :=
   Lemmas.responder_v1 P K magic rnd gLen decoys tail
@@ -302,20 +302,20 @@ theorem v1_detected (P : Prims) (K : Kdf) (magic : Nat) (rnd : List UInt8) (gLen
 /-- `WithResponderHandshakeAdmission`: an admission that admits both CPU phases does not change the
 handshake in any way -/
 theorem admission_transparent (P : Prims) (K : Kdf) (magic : Nat) (rnd : List UInt8) (gLen : Nat)
-    (decoys : List Nat) (inp : List UInt8) (adm : Nat) (h1 : adm ≠ 1) (h2 : adm ≠ 2) :
+    (decoys : List (List UInt8)) (inp : List UInt8) (adm : Nat) (h1 : adm ≠ 1) (h2 : adm ≠ 2) :
     (responderAdm P K magic rnd gLen decoys inp adm).1 = responder P K magic rnd gLen decoys inp :=
   Lemmas.responderAdm_admits P K magic rnd gLen decoys inp adm h1 h2
 
 /-- the v1 fallback path never consults the admission (and writes nothing, generates no key) -/
 theorem admission_not_consulted_for_v1 (P : Prims) (K : Kdf) (magic : Nat) (rnd : List UInt8)
-    (gLen : Nat) (decoys : List Nat) (tail : List UInt8) (adm : Nat) :
+    (gLen : Nat) (decoys : List (List UInt8)) (tail : List UInt8) (adm : Nat) :
     responderAdm P K magic rnd gLen decoys (v1Prefix magic ++ tail) adm = (⟨[], .useV1, none, []⟩, 0, 0) :=
   Lemmas.responderAdm_v1 P K magic rnd gLen decoys tail adm
 
 /-- a rejected key-generation phase costs the node nothing: no key is generated, nothing is
 written, exactly one Acquire and no release -/
 theorem admission_reject_first (P : Prims) (K : Kdf) (magic : Nat) (rnd : List UInt8) (gLen : Nat)
-    (decoys : List Nat) (inp : List UInt8) (i : Nat)
+    (decoys : List (List UInt8)) (inp : List UInt8) (i : Nat)
     (hv : v1Mismatch (v1Prefix magic) inp 16 0 = .ok i) :
     responderAdm P K magic rnd gLen decoys inp 1 = (⟨[], .admission, none, inp⟩, 1, 0) :=
   Lemmas.responderAdm_reject_first P K magic rnd gLen decoys inp i hv
@@ -323,7 +323,7 @@ theorem admission_reject_first (P : Prims) (K : Kdf) (magic : Nat) (rnd : List U
 /-- leases are balanced on every path: releases ≤ acquisitions, equal unless an Acquire itself
 failed (then exactly the failed one is outstanding and the status is the admission error) -/
 theorem admission_balanced (P : Prims) (K : Kdf) (magic : Nat) (rnd : List UInt8) (gLen : Nat)
-    (decoys : List Nat) (inp : List UInt8) (adm : Nat) :
+    (decoys : List (List UInt8)) (inp : List UInt8) (adm : Nat) :
     (responderAdm P K magic rnd gLen decoys inp adm).2.2 ≤ (responderAdm P K magic rnd gLen decoys inp adm).2.1 ∧
     ((responderAdm P K magic rnd gLen decoys inp adm).2.1 = (responderAdm P K magic rnd gLen decoys inp adm).2.2 ∨
       ((responderAdm P K magic rnd gLen decoys inp adm).1.status = .admission ∧
@@ -340,7 +340,7 @@ theorem received_prefix_v1 (magic : Nat) (tail : List UInt8) (stopped : Bool) :
 with v1 (ErrShouldDowngradeToV1); one that received 1..63 bytes gets a plain I/O error; in both
 cases it has written exactly its key and garbage -/
 theorem downgrade_signal (P : Prims) (K : Kdf) (magic : Nat) (rnd : List UInt8) (gLen : Nat)
-    (decoys : List Nat) (priv : Nat) (ell rnd' : List UInt8)
+    (decoys : List (List UInt8)) (priv : Nat) (ell rnd' : List UInt8)
     (hc : Ellswift.create rnd = some (priv, ell, rnd')) (hg : gLen ≤ MAX_GARBAGE_LEN)
     (inp : List UInt8) (hl : inp.length < 64) :
     (initiator P K magic rnd gLen decoys inp).status = (if inp.length = 0 then .downgradeV1 else .io) ∧
